@@ -21,7 +21,7 @@ func init() {
 		Rule: "one run = one sub-distributor configuration drawn from the biased generator and accepted by Params.Validate() (1-6 sub-distributors, multi-source in any order, " +
 			"shares to MAIN, INTERNAL ids reused across types, 1-3 denominations), driven for 10-40 blocks with minted, fee and bank-send inflows; books checked after every BeginBlock. " +
 			"non-trivial = at least one block had inflow and a payout or burn happened; distinct = hash of the configuration shape (account types per source/destination), probes and outcome",
-		Quick:      Tier{Runs: 700, BudgetSec: 50},
+		Quick:      Tier{Runs: 1500, BudgetSec: 50},
 		Thorough:   Tier{Runs: 40000, BudgetSec: 780},
 		RunSeed:    func(seed uint64, tier string) *Outcome { return distRunSeed("C03", seed, tier) },
 		Replay:     func(tr *kernel.Trace) *Outcome { return distReplay("C03", tr) },
@@ -35,7 +35,7 @@ func init() {
 		Level: "exploration",
 		Rule: "same configurations and traffic as C03; the exact-rational reference model M-dist (accounts keyed by (type,id), sources as a set, external inflows observed) runs next to the chain; " +
 			"after every block each final destination and the burn must be owed in [0,1) base units. non-trivial = inflow and at least one payout; distinct = hash of configuration shape, probes and outcome",
-		Quick:      Tier{Runs: 700, BudgetSec: 50},
+		Quick:      Tier{Runs: 1500, BudgetSec: 50},
 		Thorough:   Tier{Runs: 40000, BudgetSec: 780},
 		RunSeed:    func(seed uint64, tier string) *Outcome { return distRunSeed("C04", seed, tier) },
 		Replay:     func(tr *kernel.Trace) *Outcome { return distReplay("C04", tr) },
